@@ -35,6 +35,11 @@ LEVEL_TEXT = ("Symbolic execution of the real PaperWallet.generate/json/wasabi_j
 LEVEL_NOTE = "Trusted: z3, ckd contract (C01), group model, Base58Check summary, reference Bech32 decoder."
 
 
+# a counterexample may hinge on a property of a hash value the model abstracts (e.g. a fingerprint with a leading zero
+# nibble, probability 1/16): the replay then re-draws the master key material at random for a bounded time
+RANDOM_REPLAY = {"inputs": {"k": 32, "c": 32}, "always": True, "seconds": 45}
+
+
 def setup_sym(R):
     hw.setup_wallet_sym(R)
 
